@@ -2,11 +2,17 @@
    tables).  Directives: ExtrOcamlBasic and ExtrOcamlString only. *)
 From Coq Require Import ZArith List String.
 From Coq Require Extraction ExtrOcamlBasic ExtrOcamlString.
-From Gigue Require Import Types Bits Enc GenTables.
+From Gigue Require Import Types Bits Enc Disasm GenTables.
 
 Extraction Blacklist String List.
 
 Separate Extraction
   Z.add Z.sub Z.mul Z.div Z.modulo Z.opp Z.eqb Z.ltb Z.leb Z.of_nat Z.to_nat Z.div_eucl Z.abs
   Enc.apply_ctor Enc.generate Enc.generate_bytes Enc.to_signed
+  Types.dict_union Types.lookup_info
+  Disasm.get_instruction_info Disasm.extract_opcode Disasm.extract_funct3 Disasm.extract_xd
+  Disasm.extract_xs1 Disasm.extract_xs2 Disasm.extract_rd Disasm.extract_rs1 Disasm.extract_rs2
+  Disasm.extract_funct7 Disasm.extract_imm_b Disasm.extract_imm_i Disasm.extract_imm_j
+  Disasm.extract_imm_s Disasm.extract_imm_u Disasm.extract_pc_relative_offset
+  Disasm.gnu_mask_match Disasm.rvo_6_2 Disasm.rvo_1_0 Disasm.rocket_bitpat Disasm.cva6_bits
   GenTables.base_table GenTables.rimi_table GenTables.fixer_table.
